@@ -44,7 +44,10 @@ ASSUMPTIONS = [
     "an option whose pending value equals what Tor already holds may or may not be named by the SETCONF",
     "list elements may be ints (incl. 0), booleans or the empty string: each goes out as str(element); a list holding an "
     "empty-string element is judged on the wire only ('Key=' is a clear in Tor's grammar)",
-    "scalars are never assigned the empty string; list options are only assigned lists; Port-family options that "
+    "assignments that the declared type cannot validate (Integer-like = 'seven' / None, Boolean+Auto = 'auto', LineList = "
+    "a str / tuple / int) must raise and leave value and pending change untouched; Boolean, Float, String-like, comma and "
+    "*Port options validate nothing and get no such step",
+    "valid scalars are never assigned the empty string; list options are otherwise only assigned lists; Port-family options that "
     "bootstrap from neither a value nor a default only get append/extend/insert(0)/assignment (their base view is "
     "txtorcon's [DEFAULT] marker list, outside the model)",
     "option tables avoid the bootstrap shapes C11 reports as broken (multi-valued *Port, single-valued list default) "
@@ -70,7 +73,7 @@ FLOORS = {
     "quick": {"evaluations": 450, "setconf_lines_decoded": 800, "quiet_checks": 2000, "saves_rejected": 130,
               "reads_compared": 1300, "second_save_checks": 600, "midack_edits": 80, "inplace_ops": 500,
               "escaped_values_decoded": 80, "assigned_from_other_option": 150, "overlapping_saves": 120,
-              "overlap_outcomes_checked": 50,
+              "overlap_outcomes_checked": 50, "invalid_assignments": 100, "invalid_assignments_on_pending_option": 25,
               "reach:txtorcon.torconfig:TorConfig.save": 1500,
               "reach:txtorcon.torconfig:TorConfig.mark_unsaved": 500,
               "reach:txtorcon.torconfig:TorConfig._save_completed": 650,
@@ -169,6 +172,8 @@ class Model(object):
     def edit(self, st):
         """pending[name] = (how, value, serial of the edit)"""
         n = st["opt"]
+        if st.get("invalid"):
+            return                # rejected by validation: nothing changes
         self.serial += 1
         if st["op"] == "assign" and st.get("from"):
             # the value is whatever the view of the source option returns at this moment
@@ -366,8 +371,26 @@ def c10_table(rnd):
     return table
 
 
+INVALID = {CT.BOOLAUTO: ["auto", "True", None, "maybe"], CT.LINELIST: ["not a list", ("a", "tuple"), 7, None]}
+for _t in CT.INT_TYPES:
+    INVALID[_t] = ["seven", "1.5", None, "12 KB", ""]
+
+
+def gen_invalid_assign(rnd, m):
+    """an assignment whose value the option's declared type cannot validate (int('seven'), a str for a line
+    list ...): it must raise and leave the option's value and pending change as they were"""
+    cands = [n for n in m.order if m.types[n] in INVALID]
+    pend = [n for n in cands if n in m.pending]
+    n = rnd.choice(pend) if pend and rnd.random() < 0.6 else rnd.choice(cands)
+    v = rnd.choice(INVALID[m.types[n]])
+    return {"op": "assign", "name": CT.anycase(rnd, n), "opt": n, "value": list(v) if isinstance(v, tuple) else v,
+            "invalid": True, "tuple": isinstance(v, tuple)}
+
+
 def gen_edit(rnd, m, exclude_assigned_inflight=()):
     names = m.order
+    if rnd.random() < 0.07:
+        return gen_invalid_assign(rnd, m)
     for _ in range(50):
         n = rnd.choice(names)
         k = m.kind(n)
@@ -658,6 +681,7 @@ class Run(object):
         self.rejected_before = False
         self.decoded = 0
         self.overlap_tag = None
+        self.failed_assign = set()   # options that had a pending change when an assignment to them failed validation
         self.other = None            # a second, never edited TorConfig over the same table (source of values)
 
     def V(self, clause, cls, detail):
@@ -669,6 +693,8 @@ class Run(object):
         if n in self.m.pending:
             parts.append(self.m.pending[n][0])
         parts.extend(extra)
+        if n in self.failed_assign:
+            parts.append("after-failed-assignment")
         if self.overlap_tag:
             parts.append("after-" + self.overlap_tag)
         elif self.rejected_before:
@@ -688,6 +714,18 @@ class Run(object):
                     src = self.other
                 setattr(cfg, st["name"], getattr(src, st["from"]["name"]))     # the very object the view returned
                 self.rec.count("assigned_from_other_option")
+            elif st["op"] == "assign" and st.get("invalid"):
+                v = tuple(st["value"]) if st.get("tuple") else st["value"]
+                self.rec.count("invalid_assignments")
+                if st["opt"] in self.m.pending:
+                    self.rec.count("invalid_assignments_on_pending_option")
+                    self.failed_assign.add(st["opt"])
+                try:
+                    setattr(cfg, st["name"], v)
+                except (ValueError, TypeError) as e:
+                    exc = e
+                else:
+                    self.V("invalid-value-accepted", self.m.klass(st["opt"]), {"step": st})
             elif st["op"] == "assign":
                 setattr(cfg, st["name"], list(st["value"]) if isinstance(st["value"], list) else st["value"])
             else:
@@ -838,6 +876,7 @@ class Run(object):
                 if got != wl:
                     self.V("store-differs-from-pending", self.cls(n), {"option": n, "store": got, "want": wl})
             m.ack(delivered)
+            self.failed_assign -= set(delivered)
             if cfg.needs_save() and not m.pending:
                 self.V("needs-save-true-after-ack", "general", {"unsaved": repr(dict(cfg.unsaved))[:300]})
             # reads return the saved values (= the store)
